@@ -125,11 +125,11 @@ def c_add_value(rec):
     def gen(ast, L, tf):
         return bt_req(rec) + '''
 __CPROVER_requires(__CPROVER_r_ok($1, sizeof(*$1)))
-__CPROVER_assigns($this->items_, $this->indexes_.n, seq_%(r)s__cur, umap_KeyRef_%(r)s_u32__cur, g_stores, g_find_key)
+__CPROVER_assigns($this->items_, $this->indexes_, seq_%(r)s__cur, umap_KeyRef_%(r)s_u32__cur, g_stores, g_find_key, g_last_entry)
 __CPROVER_ensures(g_exc == 0 && $this->items_.n == @N0 + 1 && $ret == (unsigned int)@N0)
 __CPROVER_ensures($this->items_.wi == @N0 ==> %(eq_new)s)
 __CPROVER_ensures($this->items_.wi < @N0 ==> %(eq_old)s)
-__CPROVER_ensures(g_stores == 1 && umap_KeyRef_%(r)s_u32__cur.second == (unsigned int)@N0)
+__CPROVER_ensures(g_stores == 1 && (g_last_entry == (void *)&$this->indexes_.wv || g_last_entry == (void *)&umap_KeyRef_%(r)s_u32__cur) && ((struct pair_KeyRef_%(r)s_u32 *)g_last_entry)->second == (unsigned int)@N0)
 __CPROVER_ensures(g_find_key == ($this->items_.wi == @N0 ? (void *)&$this->items_.wv : (void *)&seq_%(r)s__cur))
 __CPROVER_ensures($this->indexes_.n == @M0 + (g_present ? 0UL : 1UL) && $this->indexes_.n <= $this->items_.n)
 ''' % {'r': rec, 'eq_new': val_eq(ast, L, rec, '$this->items_.wv', '(*$1)'), 'eq_old': val_eq(ast, L, rec, '$this->items_.wv', '@W0')}
@@ -140,7 +140,7 @@ def c_add(rec):
     def gen(ast, L, tf):
         return bt_req(rec) + '''
 __CPROVER_requires(__CPROVER_r_ok($1, sizeof(*$1)))
-__CPROVER_assigns($this->items_, $this->indexes_.n, seq_%(r)s__cur, umap_KeyRef_%(r)s_u32__cur, g_finds, g_stores, g_find_key)
+__CPROVER_assigns($this->items_, $this->indexes_, seq_%(r)s__cur, umap_KeyRef_%(r)s_u32__cur, g_finds, g_stores, g_find_key, g_last_entry)
 __CPROVER_ensures(g_exc == 0 && (unsigned long)$ret < $this->items_.n)
 __CPROVER_ensures(g_present ==> ($ret == (unsigned int)g_pidx && $this->items_.n == @N0 && $this->indexes_.n == @M0 && g_stores == 0))
 __CPROVER_ensures(!g_present ==> ($ret == (unsigned int)@N0 && $this->items_.n == @N0 + 1 && $this->indexes_.n == @M0 + 1 && g_stores == 1))
@@ -186,6 +186,68 @@ for rec, mg in MANGLED.items():
                       note='add: an equal key present => its index, table unchanged; otherwise appended at index old size; existing entries never change (indices stay valid)', **common))
     UNITS.append(Unit('btr.%s.clear' % rec, ('@' + pre + '5clearEv', None), contract=c_clear(rec), setup='  static struct BlockTable_%s obj;\n' % rec, args=['&obj'],
                       note='clear: both the entries and the index map are emptied', **common))
+
+
+# ---------------------------------------------------------------- C19: a copied table is independent of its source
+def rep(tbl, rec):
+    """representation invariant on the watched index-map entry: it refers to the table's own storage and to an existing entry"""
+    own = '(%(t)s->indexes_.wv.first.key_ == &%(t)s->items_.wv || %(t)s->indexes_.wv.first.key_ == &seq_%(r)s__cur)' % {'t': tbl, 'r': rec}
+    return '(%(t)s->indexes_.wi < %(t)s->indexes_.n ==> (%(own)s && (unsigned long)%(t)s->indexes_.wv.second < %(t)s->items_.n))' % {'t': tbl, 'own': own}
+
+
+def c_rebuild(rec):
+    def gen(ast, L, tf):
+        return '''
+__CPROVER_requires(__CPROVER_w_ok($this, sizeof(*$this)) && g_exc == 0 && $this->items_.n < (1UL << 31))
+__CPROVER_assigns($this->indexes_, seq_%(r)s__cur, umap_KeyRef_%(r)s_u32__cur, g_stores, g_find_key, g_last_entry, g_present)
+__CPROVER_ensures(g_exc == 0 && $this->indexes_.n <= $this->items_.n)
+__CPROVER_ensures(%(rep)s)
+''' % {'r': rec, 'rep': rep('$this', rec)}
+    return gen
+
+
+def l_rebuild(rec):
+    def gen(ast, L, tf):
+        i = [n for n, t in tf.locals if t == 'unsigned int']
+        if len(i) != 1:
+            raise LowerError('rebuild_index: loop counter not found')
+        return {1: '''
+  __CPROVER_assigns(%(i)s, this->indexes_, seq_%(r)s__cur, umap_KeyRef_%(r)s_u32__cur, g_stores, g_find_key, g_last_entry, g_present)
+  __CPROVER_loop_invariant(g_exc == 0 && (unsigned long)%(i)s <= this->items_.n && this->indexes_.n <= (unsigned long)%(i)s)
+  __CPROVER_loop_invariant(%(rep)s)
+  __CPROVER_decreases(this->items_.n - (unsigned long)%(i)s)
+''' % {'i': i[0], 'r': rec, 'rep': rep('this', rec)}}
+    return gen
+
+
+def c_copy(rec):
+    def gen(ast, L, tf):
+        return '''
+__CPROVER_requires(__CPROVER_w_ok($this, sizeof(*$this)) && __CPROVER_r_ok($1, sizeof(*$1)) && g_exc == 0)
+__CPROVER_requires($1->items_.n < (1UL << 31) && $1->indexes_.n <= $1->items_.n)
+__CPROVER_requires(%(rep_src)s)
+__CPROVER_assigns(__CPROVER_object_whole($this), seq_%(r)s__cur, umap_KeyRef_%(r)s_u32__cur, g_stores, g_find_key, g_last_entry, g_present)
+__CPROVER_ensures(g_exc == 0 && $ret == $this)
+__CPROVER_ensures($this->items_.n == $1->items_.n && ($this == $1 || ($this->items_.wi == $1->items_.wi && %(eq)s)))
+__CPROVER_ensures(%(rep)s)
+''' % {'r': rec, 'rep': rep('$this', rec), 'rep_src': rep('$1', rec), 'eq': val_eq(ast, L, rec, '$this->items_.wv', '$1->items_.wv')}
+    return gen
+
+
+for rec, mg in MANGLED.items():
+    pre = '_ZN4CDNS10BlockTableINS_%sES1_E' % mg
+    common = dict(prelude='btr.h', opaque=BT_OPQ, stubs=BT_STUBS + ['seq_[A-Za-z0-9_]+__assign', 'umap_[A-Za-z0-9_]+__assign'], auto_inline=BT_AUTO, props=['C19', 'C11'], timeout=600,
+                  pre_c='#define BTR_REDRAW 1\n')
+    UNITS.append(Unit('btr.%s.rebuild_index' % rec, ('@' + pre + '13rebuild_indexEv', None), contract=c_rebuild(rec), loops=l_rebuild(rec),
+                      setup='  static struct BlockTable_%s obj;\n  __CPROVER_assume(obj.items_.n < (1UL << 31));\n' % rec, args=['&obj'],
+                      note='the index is rebuilt from the table\'s own entries: every index-map entry written refers to an element of this table and carries its index', **common))
+    u = Unit('btr.%s.copy_assign' % rec, ('@' + pre + 'aSERKS2_', None), contract=c_copy(rec), replace=['btr.%s.rebuild_index' % rec],
+             setup='  static struct BlockTable_%s obj, src;\n  __CPROVER_assume(src.items_.n < (1UL << 31) && src.indexes_.n <= src.items_.n && %s);\n' % (rec, 'REP_SRC'), args=['&obj', '&src'],
+             note='copy assignment (the operation CdnsBlock::operator= applies to every table, and with it every copy of a block): the copy holds the same entries and '
+                  'its index map refers to its own storage, never to the source\'s (which may be modified, cleared or destroyed afterwards)', **common)
+    u.replace_optional = True
+    u.setup = u.setup.replace('REP_SRC', rep('(&src)', rec))
+    UNITS.append(u)
 
 TRUSTED_BASE = ['A9 CRC32 intrinsics uninterpreted',
                 'A7 std::deque<T> as an abstract sequence with one watched element; references to elements stay valid on push_back',
